@@ -278,15 +278,13 @@ class World:
                 s, d = st[1], st[2]
                 mid, msg = self.chan[(s, d)].pop(0)
                 ev.update(src=s, c=d, mid=mid, mt=msg.type)
-                if msg.type == "answer?" and getattr(msg, "accept", False) is True:
-                    ev["accept"] = True
+                self._annotate(ev, s, msg)
                 self.comps[d].on_message(s, msg, 0)
             elif kind == "reinj":
                 d = st[1]
                 s, mid, msg = self.reinj[d].pop(0)
                 ev.update(src=s, c=d, mid=mid, mt=msg.type)
-                if msg.type == "answer?" and getattr(msg, "accept", False) is True:
-                    ev["accept"] = True
+                self._annotate(ev, s, msg)
                 self.comps[d].on_message(s, msg, 0)
             elif kind == "timer":
                 t = self.timers[st[1]]
@@ -306,6 +304,13 @@ class World:
             ev["fin"] = self.fin[c.name]
         self.events.append(ev)
         return ev
+
+    def _annotate(self, ev, src, msg):
+        """observables of the delivered message that the monitors refer to"""
+        if msg.type == "answer?" and getattr(msg, "accept", False) is True:
+            ev["accept"] = True
+        if msg.type in ("dsa_value", "adsa_value") and src in self.comps:
+            ev["mval"] = self.vidx(src, msg.value)
 
     def quiet(self):
         return all(self.started.values()) and not any(self.chan.values()) and not any(self.reinj.values())
